@@ -290,6 +290,19 @@ def execute(sc: dict) -> dict:
         if e[2] == "sock.connected" and e[3]["v"] is True:
             V.append(viol("C15.connected_notification_after_shutdown", {"t": e[1]}))
             break
+    # 1b. "every connection that was opened has been closed" - when the call returns, not some time later: a transport the
+    # client opened before shutdown() returned must complete its close (connection_lost delivered) in that same instant (an
+    # idle transport needs one more loop pass after close(); one that still has bytes to flush to a peer whose window is
+    # closed needs until the window opens - shutdown() has to wait for that, as close() of the socket does)
+    overlapping_unfinished = any(c["op"] == stop["op"] and c["seq_call"] is not None and c["seq_call"] <= seq_ret and c["seq_ret"] is None for c in w.calls)
+    if not V and not overlapping_unfinished:
+        made = {e[3]["link"]: e[0] for e in ev if e[2] == "conn.made" and e[0] < seq_ret}
+        t_over = next((e[1] for e in ev if e[0] == seq_ret), stop["t_ret"])  # the instant the (merged) operation was over
+        lost = {e[3]["link"] for e in ev if e[2] == "conn.lost" and e[1] <= t_over}
+        still = sorted(l for l in made if l not in lost)
+        if still:
+            V.append(viol("C15.open_when_shutdown_returned", {"links": still, "returned_at": stop["t_ret"], "where": info.get("where"),
+                                                             "reset_in_progress": bool(info.get("reset_in_progress"))}, where=info.get("where")))
     # 2. leak check at the end of the idle period
     leak = next((l for l in w.leaks if l["label"] == "idle_end"), None)
     if leak is not None and stop["t_ret"] > leak["t"]:
